@@ -331,11 +331,61 @@ def native_prepare_search():
     return _native_cargo_test("verif_native_prepare.rs", "core/tests/verif_native_prepare.rs", ["--release", "-p", "mina_core", "--test", "verif_native_prepare"], "prepare_frame_search")
 
 
+def native_easing_search():
+    return _native_cargo_test("verif_native_easing.rs", "core/tests/verif_native_easing.rs", ["--release", "-p", "mina_core", "--test", "verif_native_easing"], "easing_exhaustive",
+                              what="exhaustive easing enumeration")
+
+
+def native_bevy_frames_search():
+    """Multi-frame native simulation of the extracted Bevy `animate` loop body with real mina timelines
+    (contracts/native/verif_native_bevy.rs appended to the extracted crate; `mina` as a path dev-dependency)."""
+    d, r = vlib.make_scratch("n")
+    try:
+        import extract_bevy
+        try:
+            crate, rep = extract_bevy.write_crate(d, r)
+        except Undecided as e:
+            return "error", "bevy extraction: %s" % e
+        lib = os.path.join(crate, "src/lib.rs")
+        open(lib, "a").write("\n" + open(os.path.join(vlib.VERIF, "contracts/native/verif_native_bevy.rs")).read())
+        open(os.path.join(crate, "Cargo.toml"), "a").write('\n[dev-dependencies]\nmina = { path = "%s" }\n' % r)
+        lock = os.path.join(r, "Cargo.lock")
+        if os.path.exists(lock):
+            import shutil
+            shutil.copyfile(lock, os.path.join(crate, "Cargo.lock"))
+        env = dict(os.environ)
+        env["CARGO_NET_OFFLINE"] = "true"
+        env["CARGO_TARGET_DIR"] = NATIVE_TARGET + "-bevy"
+        env["RUST_BACKTRACE"] = "0"
+        cmd = ["cargo", "test", "--offline", "--release", "--lib", "bevy_frames_search", "--", "--nocapture"]
+        try:
+            pr = subprocess.run(cmd, cwd=crate, env=env, stdout=subprocess.PIPE, stderr=subprocess.STDOUT, text=True, timeout=1800)
+        except subprocess.TimeoutExpired:
+            return "error", "native bevy frames search timed out"
+        out = pr.stdout
+        m = re.search(r"^test \S*bevy_frames_search \.\.\. (ok|FAILED)", out, re.M)
+        i = out.find("running ")
+        tail = out[i:] if i >= 0 else out[-3000:]
+        if not m:
+            return "error", tail[-3000:]
+        return ("agree" if m.group(1) == "ok" else "disagree"), tail[:6000]
+    finally:
+        vlib.remove_scratch(d)
+
+
 def native_dur_search():
     return _native_cargo_test("verif_native_dur.rs", "core/tests/verif_native_dur.rs", ["--release", "-p", "mina_core", "--test", "verif_native_dur"], "dur_search")
 
 
 NATIVE_SEARCHES = {
+    "native_bevy_frames_search": {"run": native_bevy_frames_search, "function": "bevy animate (extracted per-entity loop body), over many frames, real mina timelines, real Duration arithmetic",
+                                  "clause": "per frame: state only forward; position += delta iff not Ended; Waiting => before the delay; position >= duration => Ended (and not before; never for infinite); one event per state change carrying the final state; Playing => component == timeline at the previous position; Ended => terminal values; disabled => nothing changes; at most one Ended event per run",
+                                  "bounded": "3 delays x 4 cycle lengths x 4 repeats x reverse; 50 frame schedules (constant, with zero-length frames, pseudo-random over {0,1e-6,1/60,0.1,0.35,7}), with and without a 3-frame disable window; <= 4000 frames per run",
+                                  "count_re": r"bevy frames search: (\d+) runs"},
+    "native_easing_exhaustive": {"run": native_easing_search, "function": "Easing::calc (26 non-Back built-ins; 18 mirror pairs)",
+                                 "clause": "for EVERY f32 x in [0,1]: 0 <= calc(x) <= 1; calc(x) >= max over smaller inputs - 4eps (non-decreasing to float rounding, all pairs); a(x) + b(1-x) == 1 within 4eps for In/Out pairs and InOut curves; Linear identity; endpoints exact",
+                                 "bounded": "none in the input: all 1 065 353 217 f32 values in [0,1] are evaluated per curve (complete by enumeration; native execution, not deduction); tolerance 4*f32::EPSILON",
+                                 "count_re": r"easing exhaustive search: (\d+) inputs per curve"},
     "native_dur_search": {"run": native_dur_search, "function": "std Duration::as_secs_f32 (assumption A4')",
                           "clause": "n as f32 / 1e9 is monotone in [0,1] for ALL 10^9 nanosecond counts (exhaustive); as_secs_f32(s,n) == s as f32 + n as f32/1e9 and monotone over neighbouring samples",
                           "bounded": "nanoseconds: exhaustive; (secs, nanos): every s < 2^23 with 6 nanosecond values each (sampled)",
